@@ -21,22 +21,22 @@ pub fn gen_transport(r: &mut Rng) -> Vec<Tree> {
     let key = r.bytes(32);
     let budget = *r.pick(&[3000u64, 60000]);
     ops.push(l(vec![n(200u8), n(t0), n(max), n(protocol), l(vec![n(1u8), b(&key)]), n(budget), cfg_tree(&cfg), cfg_tree(&cfg)]));
-    let focus: Option<usize> = if r.chance(1, 3) { Some(*r.pick(&[18usize, 19, 20, 20, 21, 12, 13, 14])) } else { None };
+    let focus: Option<usize> = if r.chance(1, 3) { Some(*r.pick(&[18usize, 19, 20, 20, 21, 23, 23, 12, 13, 14])) } else { None };
     let nclients = if focus == Some(21) { 3 } else { *r.pick(&[1u64, 2, 2, 3]) };
     let ids = [11u64, if focus == Some(21) || r.chance(1, 6) { 11 } else { 22 }, 33];
     let mut tk = 0u64;
-    let mut token = |r: &mut Rng, ops: &mut Vec<Tree>, k: u64, now: u64| -> u64 {
+    let mut token_with = |r: &mut Rng, ops: &mut Vec<Tree>, k: u64, now: u64, short_lived: bool| -> u64 {
         let t = tk;
         tk += 1;
-        let mode = *r.pick(&[0u64, 0, 0, 0, 1, 2]);
+        let mode = if short_lived { 0 } else { *r.pick(&[0u64, 0, 0, 0, 1, 2]) };
         let tkey = if r.chance(1, 12) { r.bytes(32) } else { key.clone() };
         let timeout: i64 = *r.pick(&[2i64, 5, 15]);
-        ops.push(l(vec![n(201u8), n(t), n(now), n(protocol), n(*r.pick(&[5u64, 30, 30])), n(ids[k as usize]), z_tree(timeout), n(mode), b(&r.bytes(256)), b(&tkey)]));
+        ops.push(l(vec![n(201u8), n(t), n(now), n(protocol), n(if short_lived { *r.pick(&[2u64, 3, 5]) } else { *r.pick(&[5u64, 30, 30]) }), n(ids[k as usize]), z_tree(timeout), n(mode), b(&r.bytes(256)), b(&tkey)]));
         t
     };
     let mut now = t0;
     for k in 0..nclients {
-        let t = token(r, &mut ops, k, now);
+        let t = token_with(r, &mut ops, k, now, false);
         ops.push(l(vec![n(202u8), n(k), n(now), n(t), n(budget), cfg_tree(&cfg), cfg_tree(&cfg)]));
     }
     let mut pl = Payloads::new();
@@ -49,7 +49,7 @@ pub fn gen_transport(r: &mut Rng) -> Vec<Tree> {
         let mutk = |r: &mut Rng| -> (u64, u64, u64) {
             if r.chance(4, 5) { (0, 0, 0) } else { (r.range(1, 4), r.below(11000), r.below(256)) }
         };
-        let w: [u32; 23] = [18, 5, 5, 10, 10, 5, 5, 8, 8, 6, 6, 5, 3, 3, 2, 2, 1, 2, 3, 2, 2, 2, 0];
+        let w: [u32; 24] = [18, 5, 5, 10, 10, 5, 5, 8, 8, 6, 6, 5, 3, 3, 2, 2, 1, 2, 3, 2, 2, 2, 0, 1];
         let case = match focus {
             Some(f) if step == 4 || step == 15 => f,
             _ => r.weighted(&w),
@@ -193,6 +193,20 @@ pub fn gen_transport(r: &mut Rng) -> Vec<Tree> {
                 ops.push(l(vec![n(225u8)]));
                 ops.push(l(vec![n(227u8)]));
             }
+            23 => {
+                // the token runs out while the response is on its way: the server's next update spans the expiry instant
+                let t = token_with(r, &mut ops, k, now, true);
+                ops.push(l(vec![n(202u8), n(k), n(now), n(t), n(budget), cfg_tree(&cfg), cfg_tree(&cfg)]));
+                ops.push(l(vec![n(203u8), n(k), n(16 * MS)]));
+                ops.push(l(vec![n(250u8), n(k), n(0u8), n(0u8), n(0u8), n(0u8)]));
+                ops.push(l(vec![n(205u8), n(16 * MS)]));
+                ops.push(l(vec![n(251u8), n(k), n(0u8), n(0u8), n(0u8), n(0u8)]));
+                ops.push(l(vec![n(203u8), n(k), n(250 * MS)]));
+                ops.push(l(vec![n(250u8), n(k), n(0u8), n(0u8), n(0u8), n(0u8)]));
+                ops.push(l(vec![n(205u8), n(*r.pick(&[3 * SEC, 6 * SEC, 6 * SEC]))]));
+                ops.push(l(vec![n(227u8)]));
+                ops.push(l(vec![n(225u8)]));
+            }
             18 => {
                 // the application disconnects the message layer of the client, then the transport is updated
                 ops.push(l(vec![n(232u8), n(k)]));
@@ -201,7 +215,7 @@ pub fn gen_transport(r: &mut Rng) -> Vec<Tree> {
             }
             19 => {
                 // the same inside the handshake window: the response reached the server, the accept did not reach the client
-                let t = token(r, &mut ops, k, now);
+                let t = token_with(r, &mut ops, k, now, false);
                 ops.push(l(vec![n(202u8), n(k), n(now), n(t), n(budget), cfg_tree(&cfg), cfg_tree(&cfg)]));
                 for _ in 0..2 {
                     ops.push(l(vec![n(203u8), n(k), n(250 * MS)]));
@@ -223,7 +237,7 @@ pub fn gen_transport(r: &mut Rng) -> Vec<Tree> {
             }
             _ => {
                 // a fresh attempt for this client slot
-                let t = token(r, &mut ops, k, now);
+                let t = token_with(r, &mut ops, k, now, false);
                 ops.push(l(vec![n(202u8), n(k), n(now), n(t), n(budget), cfg_tree(&cfg), cfg_tree(&cfg)]));
             }
         }
